@@ -153,6 +153,13 @@ class SyncInterpreter(BaseInterpreter[TContext, TEvent]):
         #: while a drain is running is outside traffic and must never count
         #: towards (or be discarded by) the `maxIterations` bound.
         self._drain_owner: Optional[int] = None
+        #: Chain depth of queued self-raised events, by `id(event)`: an event
+        #: raised while an event of depth d is being processed has depth d+1,
+        #: events from outside have depth 0 (and no entry). `maxIterations`
+        #: bounds the LENGTH of one chain; counting all self-raised events of a
+        #: drain cut a batch of short chains as soon as their total reached it.
+        self._event_depths: Dict[int, int] = {}
+        self._current_depth: int = 0
 
         logger.info("✅ Synchronous Interpreter '%s' initialized. 🎉", self.id)
 
@@ -346,6 +353,7 @@ class SyncInterpreter(BaseInterpreter[TContext, TEvent]):
         with self._queue_lock:
             if self._is_processing and self._drain_owner == threading.get_ident():
                 self._chained_sends += 1
+                self._event_depths[id(event_obj)] = self._current_depth + 1
             self._event_queue.append(event_obj)
         self._process_event_queue()
 
@@ -401,18 +409,7 @@ class SyncInterpreter(BaseInterpreter[TContext, TEvent]):
                     #    same point.
                     if self.status != "running":
                         self._event_queue.clear()
-                    elif self._chained_sends > limit:
-                        logger.error(
-                            "🛑 Exceeded %d queued events in a single "
-                            "macrostep on '%s'. This usually means an action "
-                            "raises the event that triggers it. Discarding %d "
-                            "pending event(s).",
-                            limit,
-                            self.id,
-                            len(self._event_queue),
-                        )
-                        self._event_queue.clear()
-                        self._chained_sends = 0
+                        self._event_depths.clear()
                     if not self._event_queue:
                         # 🔒 Seeing the queue empty and giving up the drain is
                         #    ONE step: a sender arriving later finds the flag
@@ -420,8 +417,26 @@ class SyncInterpreter(BaseInterpreter[TContext, TEvent]):
                         #    event appended in between stayed queued after
                         #    every thread had returned.
                         self._is_processing = False
+                        self._current_depth = 0
                         break
                     current_event = self._event_queue.popleft()
+                    self._current_depth = self._event_depths.pop(
+                        id(current_event), 0
+                    )
+                if self._current_depth > limit:
+                    # ✂️ This event is link number `limit + 1` of ONE chain of
+                    #    self-raised events: cut that chain here. Events from
+                    #    outside and other, shorter chains are untouched.
+                    logger.error(
+                        "🛑 Exceeded %d queued events in a single macrostep "
+                        "on '%s'. This usually means an action raises the "
+                        "event that triggers it. Discarding the chain at "
+                        "'%s'.",
+                        limit,
+                        self.id,
+                        current_event.type,
+                    )
+                    continue
                 logger.info("⚙️ Processing event: '%s'", current_event.type)
 
                 for plugin in self._plugins:
@@ -1337,6 +1352,7 @@ class SyncInterpreter(BaseInterpreter[TContext, TEvent]):
                 return
             if self._is_processing and self._drain_owner == threading.get_ident():
                 self._chained_sends += 1
+                self._event_depths[id(done_event)] = self._current_depth + 1
             self._event_queue.append(done_event)
         logger.info("🏁 Child actor '%s' completed; firing onDone.", child.id)
         self._process_event_queue()
@@ -1401,6 +1417,10 @@ class SyncInterpreter(BaseInterpreter[TContext, TEvent]):
                 ]
                 # 📝 In place: a concurrent sender holds a reference to this
                 #    very deque.
+                kept_ids = {id(e) for e in kept}
+                for purged in self._event_queue:
+                    if id(purged) not in kept_ids:
+                        self._event_depths.pop(id(purged), None)
                 self._event_queue.clear()
                 self._event_queue.extend(kept)
 
